@@ -1188,6 +1188,16 @@ ec_point_proj_fpx_pre_dbl_mult(ec_point_proj_p point,
 	    0 != ec_pt_proj_am_is_at_infinity(&mult_data->pt_arr[0]))
 		return (0);
 	bits = bn_calc_bits(d);
+	if (bits > curve->m) { /* Table: only curve->m points (n may be longer than p). */
+#ifdef EC_PROJ_ADD_MIX
+		BN_RET_ON_ERR(ec_point_proj_import_affine(point,
+		    &mult_data->pt_arr[0], curve));
+#else
+		BN_RET_ON_ERR(ec_point_proj_assign(point, &mult_data->pt_arr[0]));
+#endif /* EC_PROJ_ADD_MIX */
+		BN_RET_ON_ERR(ec_point_proj_bin_mult(point, d, curve));
+		return (0);
+	}
 	for (i = 0; i < bits; i ++) {
 		if (0 != bn_is_bit_set(d, i)) {
 #ifdef EC_PROJ_ADD_MIX
@@ -2051,6 +2061,11 @@ ec_point_affine_fpx_pre_dbl_mult(ec_point_p point,
 	    0 != ec_point_is_at_infinity(&mult_data->pt_arr[0]))
 		return (0);
 	bits = bn_calc_bits(d);
+	if (bits > curve->m) { /* Table: only curve->m points (n may be longer than p). */
+		BN_RET_ON_ERR(ec_point_assign(point, &mult_data->pt_arr[0]));
+		BN_RET_ON_ERR(ec_point_affine_bin_mult(point, d, curve));
+		return (0);
+	}
 	for (i = 0; i < bits; i ++) {
 		if (0 != bn_is_bit_set(d, i)) {
 			BN_RET_ON_ERR(ec_point_affine_add(point,
